@@ -220,6 +220,22 @@ let register (reg : string -> (Sx.t list -> Sx.t) -> unit) : unit =
            | SignOut.SoRedirect (_, cs) -> L [wr_bool true; wr_opt wr_str key; wr_headers cs]
            | SignOut.SoError cs -> L [wr_bool false; wr_opt wr_str key; wr_headers cs])
       | _ -> raise (Bad "sign_out_ticket arity"));
+  (* ---- Refresh ---- *)
+  reg "refresh_run" (function
+      | [n; sched] ->
+        let st = Refresh.run Refresh.init (rd_list rd_nat sched) in
+        let res t = (match st.Refresh.pcs (nat_of_int t) with
+            | Refresh.PDone (Refresh.Served v) -> L [Y "served"; wr_nat v]
+            | Refresh.PDone Refresh.Denied -> Y "denied"
+            | _ -> Y "running") in
+        L [wr_nat st.Refresh.succ; wr_nat st.Refresh.reuse; L (List.init (rd_int n) res)]
+      | _ -> raise (Bad "refresh_run arity"));
+  reg "seq_refresh" (function
+      | [stale; has_rt; ok; vo; vn] ->
+        let ((o, called), cleared) = Refresh.seq_refresh (rd_bool stale) (rd_bool has_rt) (rd_bool ok) (rd_bool vo) (rd_bool vn) in
+        L [Y (match o with Refresh.SeqServedOld -> "old" | Refresh.SeqServedNew -> "new" | Refresh.SeqUnauth -> "unauth");
+           wr_bool called; wr_bool cleared]
+      | _ -> raise (Bad "seq_refresh arity"));
   reg "split_host_port" (function
       | [x] -> wr_opt (wr_pair wr_str wr_str) (NetAddr.split_host_port (rd_str x))
       | _ -> raise (Bad "split_host_port arity"));
